@@ -278,6 +278,12 @@ def rule_fresh_default(ctx, tainted) -> None:
         stale: List[str] = []
         for d in defs:
             for alt in _alternatives(d):
+                if isinstance(alt, ast.Name) and alt.id not in params:
+                    # a local that carries the value (a temporary an inlined / extracted helper left behind): decided on what it holds
+                    try:
+                        alt = A.inline_locals(fn.node, alt)
+                    except Exception:  # noqa: BLE001
+                        pass
                 if t_calls(ctx, tainted, fn.module, cls, alt):
                     fresh += 1
                     continue
